@@ -24,7 +24,11 @@
    to [DUnbound] at the start of every iteration and after the loop, and reading [DUnbound] is [Unm]: a run that ends
    in a value or an exception never read a value left over from another iteration, so for it this reading coincides
    with Python's (where the variables simply keep their last value); a loop over a literal list `[a, b]` unrolls by
-   computation. *)
+   computation.  One kind of loop-carried state is accepted: a variable assigned in the body (not a target) that
+   holds [DOpaque] when the loop is entered keeps that value instead of being reset, and every iteration must leave it
+   [DOpaque] (otherwise [Unm]); since no operation looks inside a [DOpaque] value (they are only combined with each
+   other, and tested for the warning of a [CWarnIf]), which opaque value it is cannot influence the outcome
+   (hierarchy.validate_hier_intervals accumulates a set of boundaries this way, for its warnings only). *)
 From Coq Require Import String.
 From Coq Require Import List Bool Arith ZArith QArith Qabs Qminmax.
 From ME Require Import Model.Prelude Model.VecExp Model.Validators.
@@ -38,7 +42,8 @@ Inductive callee :=
 | F_transcription_validate_intervals | F_transcription_validate
 | F_tempo_validate_tempi
 | F_key_validate_key
-| F_pattern_n_onset_midi.
+| F_pattern_n_onset_midi
+| F_util_generate_labels | F_util_intervals_to_boundaries | F_segment_validate_structure.
 
 Inductive aop := OpSub | OpBitOr.
 
@@ -61,6 +66,8 @@ Inductive aexp :=
 | ARed (op : redop) (a : aexp)                    (* .any() .all() np.any np.all .min() .max() np.min np.max .sum() *)
 | AAllclose (a b : aexp)                          (* np.allclose(a, b) with the default tolerances, on scalars *)
 | AIsArray (a : aexp)                             (* isinstance(a, np.ndarray) *)
+| AEnumerate (a : aexp) (start : Z)               (* enumerate(a, start) of a list, as the list of its (index, item) pairs *)
+| ASet (a : aexp)                                 (* set(a) of an opaque value *)
 | ACall (f : callee) (args : list aexp).
 
 Inductive astmt :=
@@ -105,6 +112,20 @@ Definition sget (x : string) (st : store) : dt aval :=
   match slookup x st with Some DUnbound | None => Unm | Some v => Ret v end.
 Fixpoint poison (xs : list string) (st : store) : store :=
   match xs with [] => st | x :: t => (x, DUnbound) :: poison t st end.
+(* the same, except that a variable holding DOpaque keeps it (loop-carried opaque state) *)
+Definition is_opaque (v : option aval) : bool := match v with Some DOpaque => true | _ => false end.
+Fixpoint poison_keep (xs : list string) (st0 st : store) : store :=
+  match xs with
+  | [] => st
+  | x :: t => (x, if is_opaque (slookup x st0) then DOpaque else DUnbound) :: poison_keep t st0 st
+  end.
+(* every variable of xs that was opaque in st0 is opaque in st *)
+Fixpoint carried_ok (xs : list string) (st0 st : store) : bool :=
+  match xs with
+  | [] => true
+  | x :: t => if is_opaque (slookup x st0) then (if is_opaque (slookup x st) then carried_ok t st0 st else false)
+              else carried_ok t st0 st
+  end.
 (* x1, ..., xk bound to v1, ..., vk (None when the numbers differ) *)
 Fixpoint bind_names (xs : list string) (vs : list aval) (st : store) : option store :=
   match xs, vs with
@@ -221,9 +242,12 @@ Definition a_len (v : aval) : dt aval :=
   | DBArr sh _ => Test (is_nil sh) (Exn TypeError) (Ret (DInt (zn (nth 0 sh 0%nat))))
   | DXArr d => Ret (DInt (zn (length d)))
   | _ => Unm end.
+Fixpoint item_at (i : nat) (l : list aval) : aval :=
+  match l, i with [], _ => DNone | x :: _, O => x | _ :: t, S j => item_at j t end.
+Definition rest_items (l : list aval) : list aval := match l with [] => [] | _ :: t => t end.
 Definition a_index (v : aval) (i : nat) : dt aval :=
   match v with
-  | DList l => Test (i <? length l)%nat (Ret (nth i l DNone)) (Exn IndexError)
+  | DList l => Test (i <? length l)%nat (Ret (item_at i l)) (Exn IndexError)
   | _ => Unm end.
 (* a[:, j] of an (n, c) array: the elements data[r * c + j], r < n; fewer than two dimensions or j >= c: IndexError *)
 Definition a_col (v : aval) (j : nat) : dt aval :=
@@ -237,7 +261,7 @@ Definition a_col (v : aval) (j : nat) : dt aval :=
 Definition a_tail (v : aval) : dt aval :=
   match v with
   | DArr a => Test (one_d a) (Ret (DArr (arr1d (tl (data a))))) Unm
-  | DList l => Ret (DList (tl l))
+  | DList l => Ret (DList (rest_items l))
   | _ => Unm end.
 Definition a_init (v : aval) : dt aval :=
   match v with
@@ -301,6 +325,12 @@ Definition a_isarray (v : aval) : dt aval :=
   | DNone | DBool _ | DInt _ | DNum _ | DStr _ | DList _ => Ret (DBool false)
   | _ => Unm end.
 
+Fixpoint enumerate_from (z : Z) (l : list aval) : list aval :=
+  match l with [] => [] | x :: t => DList [DInt z; x] :: enumerate_from (z + 1) t end.
+Definition a_enumerate (start : Z) (v : aval) : dt aval :=
+  match v with DList l => Ret (DList (enumerate_from start l)) | _ => Unm end.
+Definition a_set (v : aval) : dt aval := match v with DOpaque => Ret DOpaque | _ => Unm end.
+
 (* ---- evaluation ---- *)
 Definition list_eval (f : aexp -> dt aval) : list aexp -> dt (list aval) :=
   fix go (l : list aexp) : dt (list aval) :=
@@ -344,6 +374,8 @@ Fixpoint eval (st : store) (e : aexp) : dt aval :=
   | ARed op a => un (a_red op) a
   | AAllclose a b => bin a_allclose a b
   | AIsArray a => un a_isarray a
+  | AEnumerate a z => un (a_enumerate z) a
+  | ASet a => un a_set a
   | ACall f args => tbind (list_eval (eval st) args) (ext f)
   end.
 
@@ -357,8 +389,12 @@ Fixpoint exec (s : astmt) (st : store) (k : store -> dt unit) : dt unit :=
       tbind (eval st e) (fun v =>
         match v with
         | DList items =>
-            let st0 := poison (xs ++ assigned_block body) st in
-            each_then (fun it rest => tbind (sbind xs it st0) (fun st1 => block exec body st1 (fun _ => rest))) items (k st0)
+            let ws := assigned_block body in
+            let st0 := poison xs (poison_keep ws st st) in
+            each_then (fun it rest =>
+                         tbind (sbind xs it st0) (fun st1 =>
+                           block exec body st1 (fun st2 => if carried_ok ws st st2 then rest else Unm)))
+                      items (k st0)
         | _ => Unm end)
   | CRaise e => Exn e
   end.
